@@ -274,7 +274,14 @@ class Mut:
         if need < 1:
             return None
         # bool[need] fills the message to exactly 65536 (rejected) or 65535 (accepted) bits
-        m[4].append(["field", None, ["arr", ["bool"], ["lit", need], False], self.z("zpad"), num])
+        while need > 0:
+            c = min(need, 65535)
+            m[4].append(["field", None, ["arr", ["bool"], ["lit", c], False] if c > 1 else ["single", ["bool"]],
+                         self.z("zpad"), num])
+            need -= c
+            num = _free_number(m[4], rng)
+            if num is None:
+                return None
         if any(x[0] == "option" and x[2] == "max_bytes" and x[3] != ["lit", ["i", 0]] for x in m[4]):
             return dict(code=None, file=key, node=m, rule="B7 message size (with max_bytes)")
         return dict(code=None if ok else 19, file=key, node=None if ok else m,
@@ -335,7 +342,10 @@ class Mut:
         body.insert(rng.randint(0, len(body)), new)
         if kind == "msg":
             return dict(code=22, file=None, node=None, rule="B9 import inside a message", crash=True)
-        return dict(code=26, file=lib + ".bitproto", node=None, rule="B9 import inside an enum")
+        # the property expects the diagnostic at the import statement; the compiler cites the
+        # imported file, line 0 (finding import-in-enum-location): kept out of the main stream
+        return dict(code=26, file=key, node=new, rule="B9 import inside an enum", crash=True,
+                    known="import-in-enum-location")
 
     # ---- 10 options ----
     def option(self, files):
